@@ -71,6 +71,8 @@ def gen_specs(rng, n):
     # a second termination signal while the shutdown is in progress
     for n2 in (1, 2, 3, 5, 8, 12):
         specs.append({"commands": [[2.0, "/settings/mode", "eco"], [40.0, "/settings/mode", "standby"]], "max_s": 500.0, "sigterm_at": 300.0, "sigterm2_after_handlers": n2})
+    # the signal arrives during the hardware set-up (handlers installed, main() not yet running): the program must still end
+    specs.append({"commands": [[2.0, "/settings/mode", "eco"]], "max_s": 120.0, "sigterm_in_setup": True})
     # faults in the first poll after a phase entry (posted without timer) and in later polls
     for actor, mode in (("Tank", "eco"), ("Filtration", "eco"), ("Heating", "eco"), ("Tank", "standby")):
         for nth in (1, 2, 3):
@@ -97,14 +99,14 @@ def mainrun_monitor(chk):
             dist["crash_not_reached"] += 1
         if crashed:
             dist["crash"] += 1
-        elif spec.get("sigterm_at") is not None:
+        elif spec.get("sigterm_at") is not None or spec.get("sigterm_in_setup"):
             dist["sigterm"] += 1
         if r.get("killed_levels") is not None and energised(r["killed_levels"]):
             what = f"a second termination signal during the shutdown killed the process (default action restored) with outputs energised: {energised(r['killed_levels'])}"
         elif r.get("error"):
             what = f"the program ended with an unexpected exception {r['error']}"
-        elif r.get("timeout") and (crashed or spec.get("sigterm_at") is not None):
-            what = "the program did not end after the crash / signal"
+        elif r.get("timeout") and (crashed or spec.get("sigterm_at") is not None or spec.get("sigterm_in_setup")):
+            what = "the program did not end after the crash / signal" + (" (signal received during the hardware set-up, before main())" if spec.get("sigterm_in_setup") else "")
         elif still:
             what = f"outputs still energised at process end: {still}"
         elif r.get("arduino_direction") not in (0, None):
@@ -113,7 +115,7 @@ def mainrun_monitor(chk):
             what = f"actors still alive after shutdown: {r['alive_after']}"
         elif crashed and r.get("exit") != 1:
             what = f"exit status {r.get('exit')} after a controller crash (must be non-zero)"
-        elif not crashed and spec.get("sigterm_at") is not None and r.get("exit") != 0:
+        elif not crashed and (spec.get("sigterm_at") is not None or spec.get("sigterm_in_setup")) and r.get("exit") != 0:
             what = f"exit status {r.get('exit')} after SIGTERM without crash"
         elif crashed and r.get("t_death_us") is not None and r["t_end_us"] - r["t_death_us"] > 5_000_000:
             what = f"shutdown took {(r['t_end_us'] - r['t_death_us']) / 1e6:.1f} s after the crash"
